@@ -18,20 +18,22 @@ def prop(pid, **kw):
 
 prop(
     "C18",
-    contract_modules=["contracts.c18"],
+    contract_modules=["contracts.c18", "contracts.c18t"],
     bcc="c18",
     level="proof",
     claimed=True,
     technique="contract-based deductive verification: symbolic execution of the real Python source against sidecar contracts, VCs to z3/cvc5; bounded contract check on real files as labelled stand-in for C-backed readers",
     level_text="Cursor representation invariant and read/seek/tell/len postconditions proved for the pure-Python file classes for symbolic "
     "N, pos, n (all finite operation sequences by induction); for DCD the two C functions every seek goes through: dcd_rewind (position 0, frame count untouched) "
-    "and skip_dcdstep (skips exactly one frame for every flag combination). The Cython file classes themselves (xtc/trr/dcd/dtr) and the text readers are covered only "
-    "by the bounded check (all op sequences up to length 3/4), which is labelled bounded in evidence.",
+    "and skip_dcdstep (skips exactly one frame for every flag combination). The cursor layer of the text readers xyz / lammpstrj / mdcrd (read(n), read(), stride 2, "
+    "absolute and relative seek forwards and backwards, tell, xyz len) is proved over the contract of their one-frame parser _read (returns frame p and advances, or raises _EOF and "
+    "changes nothing): loops cut by invariants, trip counts taken from the real iterables. The Cython file classes themselves (xtc/trr/dcd/dtr), the one-frame text parsers and the "
+    "arc reader are covered only by the bounded check (all op sequences up to length 3/4), which is labelled bounded in evidence.",
     level_note="Trusted: the VC generator and its models of numpy slicing, PyTables/netCDF4 nodes, text-file line readers; reals/ints mathematical; Cython/C readers not proved.",
     trusted=["numpy.basic-slicing", "mdtraj.utils.in_units_of"],
     assumptions=[
         "PyTables / netCDF4 variables index like numpy arrays along the frame axis; len(node) is the number of stored frames",
-        "text and C readers (readline, read_next_timestep, read_xtc) deliver frames sequentially and signal EOF as their assumed contracts state",
+        "the one-frame text parsers (_read of xyz/lammpstrj/mdcrd) and the C readers (read_next_timestep, read_xtc) deliver frames sequentially and signal EOF as their assumed contracts state",
     ],
     explanation="Representation invariant of every file class (position field == abstract cursor position, 0<=pos<=N) is shown "
     "established/preserved by read/seek/tell/len for symbolic N, pos, n: covers every finite operation sequence by induction. "
